@@ -438,6 +438,9 @@ def run_op(w, case, classes, call, regs, op):
             viol.append({'clause': f'{meth} leaves the original unchanged', 'before': before[0], 'after': after[0]})
         if code != 0:
             regs.append(None)
+            if code in (10, 11) and all(n in [f['name'] for f in fields if f['init']] for n, _ in kwl):
+                viol.append({'clause': f'{meth} with replacements for init fields only returns an instance (no TypeError / ValueError)',
+                             'outcome': code, 'init_false_fields': [f['name'] for f in fields if not f['init']]})
             return [code] + J[j0:] + [-3, unchanged], viol
         regs.append((c, res))
         obs = [0] + J[j0:] + [-3, case['classes'][c]['id'] if type(res) is classes[c] else -9] + w.show_fields(res, names)
